@@ -11,5 +11,5 @@ def run(ctx):
         want=["-", "N", "JR", "JRW", "JW", "JRWPASD"], given=["-", "N", "JR", "JRW", "JRWPAS", "JRWPASDO"],
         u1_quick={"want": ["-", "N", "JRW"], "given": ["-", "N", "JRW"], "kinds": BASE, "maxseq": 1, "nusers": 2},
         u1_thorough={"want": ["-", "N", "JRW", "JW"], "given": ["-", "N", "JRW"], "kinds": BASE, "maxseq": 2, "nusers": 2},
-        faults={"quick": 120, "thorough": 3000, "modes": ("error", "crash")},
+        faults={"quick": 120, "thorough": 1200, "modes": ("error", "crash")},
         sim_quick={"num": 120, "depth": 14}, sim_thorough={"num": 1500, "depth": 18})
